@@ -7,7 +7,10 @@ engine is the real libssl (through cryptography's cffi binding, wrapped by the
 vendored pyOpenSSL shim vendor/OpenSSL).  The tape chooses: TLS 1.3 / 1.2, the
 application write schedule on both sides (write / writeSequence, before, during
 and after the handshake, from outside, from dataReceived, from
-handshakeCompleted, from push or pull producers), who calls loseConnection()
+handshakeCompleted, from push or pull producers - ticked from outside, or
+acting re-entrantly from inside resumeProducing(), writing at registration,
+unregistering with the last chunk or only at the following turn without having
+written anything, as FileSender does at end of file), who calls loseConnection()
 and when, receiver pauses, sender-side back-pressure of the underlying
 transport, and every segmentation / interleaving decision for the two
 ciphertext directions (including long runs of 1-byte deliveries).  The
@@ -34,9 +37,9 @@ the statement, see `Side` / `final_checks`):
   raised        no exception escapes from the TLS layer.
   hs-overtake   same as in-order/complete, but for runs in which the application
                 wrote or closed from handshakeCompleted() while earlier writes
-                existed — the genuine defect described in FINDINGS keeps its own
-                signature prefix (C17:hs-overtake:*) so that it can be listed or
-                fixed without hiding the other clauses.
+                existed — the genuine defect described in FINDINGS (REPAIRED in
+                /repo 9d1ab05) keeps its own signature prefix (C17:hs-overtake:*)
+                so that a regression of it is told apart from the other clauses.
 Ciphertext is never logged or inspected (it differs from run to run); with the
 RSA fixture its *lengths* are constant, so the schedule is a pure function of the
 tape.
@@ -76,7 +79,9 @@ COMPONENTS = {
              "reactor time (detsim.clock.SimClock)",
              "server certificate: committed RSA-2048 self-signed fixture (fixtures/tls_server_*.pem); client does not verify it"],
 }
-RULE = ("run = one TLS 1.3 or 1.2 connection; up to 40 tape-chosen operations (application write/writeSequence of 0..70000 bytes, register push/pull producer, "
+RULE = ("run = one TLS 1.3 or 1.2 connection; up to 40 tape-chosen operations (application write/writeSequence of 0..70000 bytes, register push/pull producer "
+        "[per producer: driven by harness ticks only or also acting from inside resumeProducing(); first chunk written at registration or later; unregisters with "
+        "its last chunk or at the next tick/resume without writing; closes afterwards or not], "
         "produce, loseConnection, pause/resume reading, timer tick, network step, burst of 1..3-byte deliveries) interleaved with the handshake, an optional settle phase, a forced "
         "loseConnection if nobody closed, then a tape-driven drain to quiescence; swarm knobs: TLS version, protocol class per side, high-water mark per side, reactive writes from dataReceived / "
         "handshakeCompleted; non-trivial = at least one application received bytes, the ciphertext was segmented, "
@@ -90,6 +95,8 @@ ASSUMPTIONS = [
     "producers are registered before loseConnection() only (registering one afterwards and writing is outside tls.write's documented contract)",
     "bytes written after loseConnection() while a producer is registered may or may not count as 'written before loseConnection': they are allowed to "
     "arrive (ITransport documents that they do) but are not demanded",
+    "a producer calls write/unregisterProducer/loseConnection from inside its own resumeProducing() (IPushProducer/IPullProducer put no restriction on "
+    "that; FileSender and _PullToPush-wrapped producers do it); it never registers another producer from there",
     "ciphertext lengths are a function of the plaintext schedule only (RSA fixture; measured constant over 4000 handshakes per version)",
 ]
 
@@ -106,9 +113,19 @@ PAT = {
 SIZES = [(1, 4), (0, 1), (2, 2), (10, 3), (100, 3), (1000, 2), (5000, 2), (16384, 1), (16385, 1), (20000, 1), (40000, 1), (70000, 1)]
 SMALL = [1, 0, 3, 50, 700]
 STEP_CAP = 30000
-# dev/triage switch: skip the precondition of the hs-overtake finding (see FINDINGS at the bottom) so that
-# the remaining clauses can be exercised / mutants judged on an unfixed tree:  VERIF_C17_AVOID_HS_OVERTAKE=1
-AVOID_HS_OVERTAKE = os.environ.get("VERIF_C17_AVOID_HS_OVERTAKE") == "1"
+# knob: True skips the precondition of the hs-overtake finding (see FINDINGS at the bottom; repaired in /repo 9d1ab05) so that
+# the remaining clauses can be exercised / mutants judged on a tree without the repair
+AVOID_HS_OVERTAKE = False
+# producer behaviours (first item = simplest):
+#   style   driven  the producer writes only when the harness ticks it (its data source) while it is not paused
+#           eager   it also writes - or finds out it has finished - from inside resumeProducing(), i.e. re-entrantly
+#                   from wherever the TLS layer / the underlying transport decided to resume it
+#   finish  with-last  unregisters right after its last chunk
+#           next-turn  notices only at the next turn (tick or resume) that nothing is left and unregisters then,
+#                      without having written anything in that turn (FileSender at end of file)
+PROD_STYLES = ["driven", "eager", "eager"]
+PROD_FINISH = ["with-last", "next-turn"]
+AT_REGISTER_P = 0.4     # a push producer writes its first chunk straight after registerProducer() returns
 
 
 class CtxFactory:
@@ -152,8 +169,9 @@ class ListeningApp(App):
 class PushProd:
     kind = "push"
 
-    def __init__(self, h, side, left, then_lose):
+    def __init__(self, h, side, left, then_lose, style="driven", finish="with-last"):
         self.h, self.side, self.left, self.then_lose = h, side, left, then_lose
+        self.style, self.finish = style, finish
         self.paused = False
         self.stopped = False
 
@@ -165,6 +183,10 @@ class PushProd:
     def resumeProducing(self):
         self.paused = False
         self.h.sim.event("prod-resumed", self.side)
+        if self.style == "eager" and not self.stopped and self.h.sides[self.side].prod is self:
+            # room again: write the next chunk (or find out there is none) here and now
+            self.h.sim.probe("push_producer_acts_inside_resumeProducing")
+            self.h.produce(self.side, "resumed")
 
     def stopProducing(self):
         self.stopped = True
@@ -175,8 +197,9 @@ class PushProd:
 class PullProd:
     kind = "pull"
 
-    def __init__(self, h, side, left, then_lose):
+    def __init__(self, h, side, left, then_lose, style="driven", finish="with-last"):
         self.h, self.side, self.left, self.then_lose = h, side, left, then_lose
+        self.style, self.finish = style, finish      # a pull producer always acts inside resumeProducing; style is unused
         self.paused = False
         self.stopped = False
 
@@ -292,7 +315,7 @@ class Harness:
                           "loseConnection (called=%s) and %d after" % (side, s.recv, s.recv_after, rest[:8],
                                                                        PAT[p.name][s.recv:s.recv + 8], p.before, p.lose_called, p.after))
                 if p.hs_overtake:
-                    # known defect family: give it its own stable signature
+                    # defect family REPAIRED in /repo 9d1ab05: a regression of it keeps its own stable signature
                     sim.fail("hs-overtake", "in-order", "write/flush issued from handshakeCompleted overtook writes buffered during the handshake: " + detail)
                 sim.fail("in-order", what, detail)
             s.recv_after += len(rest)
@@ -390,12 +413,20 @@ class Harness:
             return                        # registering a producer after loseConnection() is outside the contract (ASSUMPTIONS)
         left = sim.draw_int(1, 5, "nchunks")
         then_lose = sim.draw_bool(0.5, "then_lose")
-        prod = (PushProd if kind == "push" else PullProd)(self, side, left, then_lose)
+        style = sim.draw_choice(PROD_STYLES, "prod_style") if kind == "push" else "driven"
+        finish = sim.draw_choice(PROD_FINISH, "prod_finish")
+        at_register = kind == "push" and sim.draw_bool(AT_REGISTER_P, "at_register")
+        prod = (PushProd if kind == "push" else PullProd)(self, side, left, then_lose, style, finish)
         s.prod = prod
-        sim.event("register", side, kind, left, then_lose)
+        sim.event("register", side, kind, left, then_lose, style, finish, at_register)
         sim.probe("register_%s" % kind)
+        if not s.tls._handshakeDone:
+            sim.probe("register_before_handshake_done")
         with sim.guard("raised", "registerProducer"):
             s.app.transport.registerProducer(prod, kind == "push")
+        if at_register and s.prod is prod and not prod.paused:
+            sim.probe("push_producer_writes_at_registration")
+            self.produce(side, "registered")
 
     def produce(self, side, where="op"):
         """The side's producer writes one chunk; after its last chunk it unregisters
@@ -405,11 +436,20 @@ class Harness:
         prod = s.prod
         if prod is None or s.lost:
             return
-        prod.left -= 1
-        self.app_write(side, sim.draw_weighted(SIZES, "psize"), "write", where)
-        if prod.left <= 0 and s.prod is prod:
+        if prod.left > 0:
+            prod.left -= 1
+            self.app_write(side, sim.draw_weighted(SIZES, "psize"), "write", where)
+            done = prod.left <= 0 and prod.finish == "with-last"
+        else:
+            done = True                   # finish == "next-turn": nothing left, noticed only now
+            sim.probe("producer_finishes_without_writing")
+            if where in ("resumed", "pulled"):
+                sim.probe("producer_unregisters_inside_resumeProducing")
+                if s.lose_called:
+                    sim.probe("producer_unregisters_inside_resumeProducing_after_lose")
+        if done and s.prod is prod:
             s.prod = None
-            sim.event("unregister", side)
+            sim.event("unregister", side, where)
             with sim.guard("raised", "unregisterProducer"):
                 s.app.transport.unregisterProducer()
             if prod.then_lose:
@@ -689,18 +729,19 @@ LEVEL_NOTE = ("Ciphertext differs from run to run (libssl's RNG cannot be seeded
               "and plaintext lengths only, and every scheduling decision is drawn from the tape without looking at ciphertext. With the RSA fixture "
               "ciphertext lengths are constant, so tape -> trace is a function (tools/selftest_determinism.py).")
 
-# Violations on the unchanged tree (twisted 24.7.0.post0), analysed:
+# Violations on the tree as first examined (twisted 24.7.0.post0), analysed; REPAIRED in /repo 9d1ab05:
 FINDINGS = [
-    "C17:hs-overtake:* — GENUINE. TLSMemoryBIOProtocol._checkHandshakeStatus sets _handshakeDone and calls the application's "
+    "C17:hs-overtake:* — GENUINE defect of the tree as first examined, REPAIRED in /repo 9d1ab05 (AVOID_HS_OVERTAKE = False: the precondition is in all runs; True only "
+    "for dev-time comparison on a tree without the repair). Before the repair TLSMemoryBIOProtocol._checkHandshakeStatus sets _handshakeDone and calls the application's "
     "IHandshakeListener.handshakeCompleted() *before* dataReceived() gets to _unbufferPendingWrites(); a write issued from handshakeCompleted "
     "(plain TLSMemoryBIOProtocol), or the aggregator flush implied by loseConnection() there, or a >64000-byte write (BufferingTLSTransport), "
     "goes straight to SSL_write and overtakes the writes made before the handshake completed that still sit in _appSendBuffer: the peer "
-    "receives b'second first '. Candidate fix (validated: 94k runs without the avoidance switch, no violation): in _write(), after the "
+    "receives b'second first '. Repair (validated: 94k runs without the avoidance switch, no violation): in _write(), after the "
     "_lostTLSConnection test, `if self._appSendBuffer: self._bufferedWrite(bytes); return` (queue behind waiting writes; "
     "_unbufferPendingWrites swaps the list out first, so it is unaffected).",
 ]
 
-# tools/mutate.py C17 ... with VERIF_C17_AVOID_HS_OVERTAKE=1 (so that only the mutant can make the check fail); exit code 1 = caught
+# tools/mutate.py C17 ... (on a tree without /repo 9d1ab05: with AVOID_HS_OVERTAKE = True so that only the mutant can make the check fail); exit code 1 = caught
 MUTANTS = [
     "M1 _unbufferPendingWrites does not resume the producer: caught (closed:producer-left-paused, closed:underlying-transport-open)",
     "M2 loseConnection calls _shutdownTLS although _appSendBuffer is non-empty: SURVIVES — equivalent here: with OpenSSL >= 1.1 SSL_shutdown "
@@ -716,5 +757,9 @@ MUTANTS = [
     "M14 dataReceived runs _flushReceiveBIO before _unbufferPendingWrites: caught (complete:first-closer/second-closer)",
     "M17 _flushReceiveBIO without the final _flushSendBIO: caught (closed:underlying-transport-open)",
     "M18 _ProducerMembrane.resumeProducing does not reach the producer: caught (closed:producer-left-paused)",
+    "M20 (round 6) _unbufferPendingWrites goes on to its own `if self.disconnecting: _shutdownTLS()` after resumeProducing() when the producer unregistered "
+    "itself in there (SSL_shutdown twice with the peer's records still unread): caught (raised:network:IndexError) since producers may act inside "
+    "resumeProducing and finish at the turn after their last chunk; survived while every producer was ticked from outside only",
+    "M21 (round 6) _unbufferPendingWrites does not `return` after resumeProducing() at all: caught (complete:second-closer and others)",
     "M19 _AggregateSmallWrites never schedules its flush: caught (delivered-at-quiescence:idle-connection); survived before that clause existed",
 ]
